@@ -169,6 +169,7 @@ type G struct {
 	extSize bool // the string being sized has an extensible size constraint
 	// statistics
 	DirtyBits             int // BIT STRINGs whose unused trailing bits are not zero
+	Shared                int // list elements that are copies of their predecessor: the pointers inside are shared (a DAG, not a tree)
 	ExtOutside            int // values generated outside the root of an extensible constraint about what was built
 	OptPresent, OptAbsent int
 }
@@ -436,6 +437,13 @@ func (g *G) Value(t reflect.Type, p P, depth int) reflect.Value {
 		}
 		v := reflect.MakeSlice(t, int(n), int(n))
 		for i := 0; i < int(n); i++ {
+			if i > 0 && n <= 64 && t.Elem().Kind() == reflect.Struct && g.intn(0, 9, "share") == 4 {
+				// the same element again - as a value copy, so every pointer inside it is SHARED with its predecessor
+				// (slices filled in a loop from one object): the same abstract value as two separate copies
+				v.Index(i).Set(v.Index(i - 1))
+				g.Shared++
+				continue
+			}
 			v.Index(i).Set(g.Value(t.Elem(), ep, depth+1))
 		}
 		return v
